@@ -80,6 +80,41 @@ func run(c *vk.Ctx, can *rig.Canary, sc scen, idx int) {
 	wg.Add(1)
 	go func() {
 		defer wg.Done()
+		if sc.pattern == "peer-answers-testrequests-late" {
+			// no keep-alive traffic: the session has to probe the peer, and every probe is answered only after 3/4 of
+			// the probe period — the session's own heartbeat falls due while its TestRequest is still unanswered
+			T := N + time.Second
+			if N/20 > time.Second {
+				T = N + N/20
+			}
+			answered := 0
+			for {
+				select {
+				case <-stop:
+					return
+				case <-time.After(10 * time.Millisecond):
+				}
+				fr, _ := l.Frames()
+				var trs []rig.Frame
+				for _, f := range fr {
+					if f.Type == "1" && !f.T.Before(tLogged) {
+						trs = append(trs, f)
+					}
+				}
+				if len(trs) > answered {
+					tr := trs[answered]
+					answered++
+					select {
+					case <-stop:
+						return
+					case <-time.After(time.Until(tr.T.Add(T * 3 / 4))):
+					}
+					id, _ := fixref.Get(tr.Fields, rig.TTestReqID)
+					l.Conn.Feed(l.Peer.Msg("0", fixref.Field{Tag: rig.TTestReqID, Val: id}))
+					c.Count("late_answers_to_the_sessions_testrequests", 1)
+				}
+			}
+		}
 		tk := time.NewTicker(N * 8 / 10)
 		defer tk.Stop()
 		for {
@@ -119,7 +154,7 @@ func run(c *vk.Ctx, can *rig.Canary, sc scen, idx int) {
 		}
 	}
 	switch sc.pattern {
-	case "idle":
+	case "idle", "peer-answers-testrequests-late":
 		time.Sleep(total)
 	case "send-just-before":
 		for time.Now().Before(end) {
@@ -264,7 +299,7 @@ func run(c *vk.Ctx, can *rig.Canary, sc scen, idx int) {
 
 func main() {
 	c := vk.Init("C08")
-	c.Rule("full-stack sessions, both roles, negotiated N in {1,2,3} (quick) + {5,20} (thorough); the peer keeps the session alive with a Heartbeat every 0.8 N; application send patterns relative to the previous outbound message: none (idle for many periods), one send N-0.15 s / N / N+0.15 s / N/2 after it, bursts of 20 followed by 2.3 N of idleness, two sends 0.09 N apart followed by 1.6 N of idleness, a retransmission requested by the peer N/2 after it, an application send through the handler (own header) N/2 after it; plus sessions that log on a second time on the same connection after a Logout exchange (acceptor: first interval 3 then 1, 1 then 2, 2 then 2; initiator: same interval), observed from the second logon with the patterns idle / N+0.15 s / N/2. Oracle on write timestamps at the peer end: every gap between consecutive outbound messages (and up to the end of the observation) <= N + N/10 + slack, slack = 100 ms + 3 x measured scheduler oversleep; every Heartbeat without TestReqID follows the previous outbound message by >= N - 20 ms. distinct = (role, N, pattern); non-trivial = at least one unsolicited Heartbeat observed")
+	c.Rule("full-stack sessions, both roles, negotiated N in {1,2,3} (quick) + {5,20} (thorough); the peer keeps the session alive with a Heartbeat every 0.8 N; application send patterns relative to the previous outbound message: none (idle for many periods), one send N-0.15 s / N / N+0.15 s / N/2 after it, bursts of 20 followed by 2.3 N of idleness, two sends 0.09 N apart followed by 1.6 N of idleness, a retransmission requested by the peer N/2 after it, an application send through the handler (own header) N/2 after it; a peer that sends nothing on its own and answers each of the session's TestRequests only after 3/4 of the probe period (the session's heartbeat falls due while its own TestRequest is pending); plus sessions that log on a second time on the same connection after a Logout exchange (acceptor: first interval 3 then 1, 1 then 2, 2 then 2; initiator: same interval), observed from the second logon with the patterns idle / N+0.15 s / N/2. Oracle on write timestamps at the peer end: every gap between consecutive outbound messages (and up to the end of the observation) <= N + N/10 + slack, slack = 100 ms + 3 x measured scheduler oversleep; every Heartbeat without TestReqID follows the previous outbound message by >= N - 20 ms. distinct = (role, N, pattern); non-trivial = at least one unsolicited Heartbeat observed")
 	c.Assume("a run whose canary measured more than 250 ms oversleep is inconclusive")
 	can := rig.StartCanary()
 	defer can.Stop()
@@ -277,7 +312,7 @@ func main() {
 	var scs []scen
 	for _, role := range []rig.Role{rig.Acceptor, rig.Initiator} {
 		for _, n := range ns {
-			for _, p := range []string{"idle", "send-just-before", "send-at-deadline", "send-just-after", "bursts-then-idle", "half-period-sends", "pair-just-under-a-tenth-apart", "resend-replay-mid-period", "handler-send-mid-period"} {
+			for _, p := range []string{"idle", "send-just-before", "send-at-deadline", "send-just-after", "bursts-then-idle", "half-period-sends", "pair-just-under-a-tenth-apart", "resend-replay-mid-period", "handler-send-mid-period", "peer-answers-testrequests-late"} {
 				scs = append(scs, scen{role, n, p, periods[n], 0})
 			}
 		}
